@@ -185,26 +185,75 @@ func vMessageSetBytes(recs [][]string) []byte {
 	return out
 }
 
-// read drains a reader without blocking for long: it stops once the last expected offset
-// (newest, or the HW for committed readers) was delivered; a 400ms deadline is the safety
-// net when the implementation delivers less than that.
+// retainedIn lists the offsets currently retained in [from, to] (walks the log with an
+// uncommitted reader, which never waits below the newest offset).
+func (v *vLogImpl) retainedIn(from, to int64) []int64 {
+	l := v.l
+	newest := l.NewestOffset()
+	if newest < 0 || from > newest {
+		return nil
+	}
+	r, err := l.NewReader(from, true)
+	if err != nil {
+		return nil
+	}
+	var out []int64
+	buf := make([]byte, 28)
+	for last := int64(-1 << 62); last < newest; {
+		ctx, cancel := context.WithTimeout(context.Background(), 400*time.Millisecond)
+		_, off, _, _, err := r.ReadMessage(ctx, buf)
+		cancel()
+		if err != nil {
+			break
+		}
+		last = off
+		if off > to {
+			break
+		}
+		out = append(out, off)
+	}
+	return out
+}
+
+// read drains a reader without blocking for long. Uncommitted: until the newest offset was
+// delivered. Committed: as many messages as are retained in [start, hw], then ONE more
+// short probe when uncommitted messages exist (a reader that hands out a message above the
+// HW does so at once), so that neither a missing nor a surplus message goes unnoticed.
 func (v *vLogImpl) read(start int64, uncommitted bool) string {
 	l := v.l
 	r, err := l.NewReader(start, uncommitted)
 	if err != nil {
 		return "err " + vErrEnum(err)
 	}
-	limit := l.NewestOffset()
-	if !uncommitted {
-		limit = l.HighWatermark()
-		if start > limit || l.OldestOffset() == -1 {
-			return "ok "
-		}
-	}
 	var out []string
 	buf := make([]byte, 28)
-	last := int64(-1 << 62)
-	for last < limit {
+	show := func(m SerializedMessage, off, ts int64, ep uint64) string {
+		return fmt.Sprintf("%d:%d:%d:%s:%s:%s", off, ts, ep, vShowBytes(m.Key()), vShowBytes(m.Value()), vShowHdrs(m.Headers()))
+	}
+	if uncommitted {
+		limit := l.NewestOffset()
+		for last := int64(-1 << 62); last < limit; {
+			ctx, cancel := context.WithTimeout(context.Background(), 400*time.Millisecond)
+			m, off, ts, ep, err := r.ReadMessage(ctx, buf)
+			cancel()
+			if err != nil {
+				if strings.Contains(err.Error(), "EOF") {
+					out = append(out, "TIMEOUT")
+					break
+				}
+				return "err " + vErrEnum(err)
+			}
+			out = append(out, show(m, off, ts, ep))
+			last = off
+		}
+		return "ok " + strings.Join(out, " ")
+	}
+	hw := l.HighWatermark()
+	if start > hw || l.OldestOffset() == -1 {
+		return "ok "
+	}
+	want := len(v.retainedIn(start, hw))
+	for i := 0; i < want; i++ {
 		ctx, cancel := context.WithTimeout(context.Background(), 400*time.Millisecond)
 		m, off, ts, ep, err := r.ReadMessage(ctx, buf)
 		cancel()
@@ -215,8 +264,15 @@ func (v *vLogImpl) read(start int64, uncommitted bool) string {
 			}
 			return "err " + vErrEnum(err)
 		}
-		out = append(out, fmt.Sprintf("%d:%d:%d:%s:%s:%s", off, ts, ep, vShowBytes(m.Key()), vShowBytes(m.Value()), vShowHdrs(m.Headers())))
-		last = off
+		out = append(out, show(m, off, ts, ep))
+	}
+	if hw < l.NewestOffset() {
+		ctx, cancel := context.WithTimeout(context.Background(), 3*time.Millisecond)
+		m, off, ts, ep, err := r.ReadMessage(ctx, buf)
+		cancel()
+		if err == nil {
+			out = append(out, show(m, off, ts, ep)) // surplus: above the HW
+		}
 	}
 	return "ok " + strings.Join(out, " ")
 }
